@@ -14,7 +14,7 @@ From LV Require Model.A85 Model.AsciiHex Spec.AsciiHexSpec Proofs.AsciiHexProofs
 From LV Require Import Proofs.SpellingNumProofs Proofs.SpellingObjProofs Proofs.SpellingFileProofs Proofs.SpellingProofsLitRaw.
 From LV Require Model.Utf Proofs.LoadsFrameProofs Proofs.LoadsTableProofs Proofs.LoadsStreamProofs Proofs.LoadsFilterProofs.
 From LV Require Model.LoaderExt Model.StreamFilt Spec.StreamCodecSpec Model.Png Proofs.ObjStmSpellProofs Proofs.LengthRefProofs Gen.SaveFmt Proofs.LoadsRefLenProofs Proofs.ObjStmFilterProofs.
-From LV Require Proofs.LoadsLoopProofs Proofs.LoadsObjStmProofs Proofs.LoadsObjStmFile Proofs.LoadsObjStmWhole.
+From LV Require Proofs.LoadsLoopProofs Proofs.LoadsObjStmProofs Proofs.LoadsObjStmFile Proofs.LoadsObjStmWhole Proofs.LoadsFullProofs Proofs.LoaderExtProofs.
 Local Open Scope N_scope.
 
 (* (1) Cross-reference streams.  For ALL field widths (0 = field absent, any positive width, not all three
@@ -1016,37 +1016,70 @@ Theorem C02_load_frame :
            d_objects := objs; d_max_id := xref_max_id x0 |} (x_type x0).
 Proof. exact LoadsFrameProofs.load_frame. Qed.
 
-(* abstract documents in the claimed domain: one object per number (single revision), numbers 1..2^32-2,
-   generations below 2^16, direct objects the data model can hold (c14's obj_wf), streams only at top level
-   with a Length entry that is the data length, written directly or as a reference to an integer object of the
-   document; no object typed ObjStm or XRef; version without end-of-line bytes *)
-Definition length_ok (a : adoc) (d : dict) (c : bytes) : Prop :=
-  dict_get d K_Length = Some (OInt (Z.of_nat (length c))) \/
-  exists i g, dict_get d K_Length = Some (ORef i g) /\ In ((i, g), OInt (Z.of_nat (length c))) (a_objs a).
-Definition top_wf (a : adoc) (o : obj) : Prop :=
-  match o with
-  | OStream d c => obj_wf (ODict d) /\ length_ok a d c /\
-                   ~ has_type d (bs "ObjStm") = true /\ ~ has_type d (bs "XRef") = true
-  | _ => obj_wf o
+(* ---------------------------------------------------------------------------------------------
+   C02_full: THE PROPERTY, for every single-section file of the reference writer's style space -- both cross-reference
+   formats, object streams, Length direct or by reference (resolved while parsing or after the object streams), every filter
+   chain on the cross-reference stream and (without predictor) on object streams, every spelling, order and filler --
+   against c01's extended reader LoaderExt.load_ext with Stream::decompress := decompress_ref (lopdf's plumbing on the Gallina
+   decoders).  load_ext is conservative over Loader.load (C01_loader_ext_conservative), which answers LUnmodelled for three
+   of these features: C02_full_over_load restates the theorem for Loader.load wherever that model answers.
+   Loading the file yields the version, EXACTLY the objects the file defines -- each compared BY VALUE with [content a]
+   (same_value: reals by decimal value, strings without their format, a stream: the same entries with Length the number of
+   data bytes and the same data), none missing, none added except the file-structure objects the writer itself added
+   (object-stream containers, the cross-reference stream: [structural_nums]) -- and the trailer: the document's entries and
+   Size (the other keys of a cross-reference stream dictionary are bookkeeping).
+
+   THE DOMAIN [C02_domain st a], every clause a restriction the property text implies or one of the open findings' classes:
+   * [top_ok2] per top-level object / [mem_ok] per member of an object stream / [spell_wf] of the trailer resp. the
+     cross-reference stream dictionary in the style's spelling: integers i64, reals canonical decimal texts, reference numbers
+     u32 / u16, dictionary keys distinct, no stream inside an object (the data model's types), literal strings outside the two
+     OPEN FINDINGS (C02-raw-eol: no LF spelled as raw CR / CR LF; C02-deep-parens: raw parentheses nested <= 100),
+     nesting <= MAX_DEPTH (the reader's limit: C01-deep-nesting / C04's class); object numbers >= 1, generations u16; a
+     stream's Length is its data length, written directly or as a reference to an integer object of the document; no document
+     object is typed ObjStm;
+   * the trailer holds none of Size / Prev / Encrypt (and, in the stream format, Filter / DecodeParms / Index): Size is the
+     writer's, Prev = several sections (C02_loads_multi_partial), Encrypt = C05's domain, hybrid files are excluded by the text;
+   * [cont_ok]: an object stream has at least one and at most 65536 members (lopdf keeps the index within the container as a
+     u16), its payload is below 4 GiB, NO PNG PREDICTOR on an object stream (the one style choice not covered: the writer pads
+     such a payload with spaces to whole rows -- C02_objstm_predictor_partial names it);
+   * sizes: file positions and object numbers fit u32 (files below 4 GiB), the widths sum a machine integer, the version is
+     UTF-8 (lopdf's version is a String), the file is larger than 25 bytes and the startxref block keeps "startxref" within the
+     25 bytes before "%%EOF" that Reader::get_xref_start searches ([sx_window]: padding of at most 12 spaces; 7.5.5 says the
+     line shall contain the offset).
+   --------------------------------------------------------------------------------------------- *)
+Definition C02_domain (st : fstyle) (a : adoc) : Prop :=
+  Forall (fun s => os_members s <> []) (s_ostms st) /\
+  match s_xref st with
+  | XTable t =>
+    Forall (LoadsRefLenProofs.top_ok2 a) (LoadsTableProofs.tops st a) /\ Utf.utf8_decode (a_version a) <> None /\
+    (spell_wf (ODict (LoadsTableProofs.trd a)) (t_trailer t) /\ (nest (ODict (LoadsTableProofs.trd a)) <= MAX_DEPTH)%nat /\
+     dict_get (a_trailer a) RefWriter.K_Size = None /\ dict_get (a_trailer a) K_Prev = None /\ dict_get (a_trailer a) K_Encrypt = None) /\
+    (LoadsTableProofs.xpos st a <= u32_max /\ LoadsTableProofs.size a <= u32_max /\ 25 < LoadsTableProofs.xpos st a) /\
+    LoadsFullProofs.sx_window st (LoadsTableProofs.xpos st a)
+  | XStream x =>
+    Forall (LoadsRefLenProofs.top_ok2 a) (LoadsObjStmFile.ptops st a) /\ Forall (LoadsObjStmFile.cont_ok a) (s_ostms st) /\
+    Utf.utf8_decode (a_version a) <> None /\
+    (spell_wf (ODict (LoadsObjStmWhole.gxdf st a x)) (i_obj (xs_istyle x)) /\
+     (nest (ODict (LoadsObjStmWhole.gxdf st a x)) <= MAX_DEPTH)%nat /\
+     dict_get (a_trailer a) K_Prev = None /\ dict_get (a_trailer a) K_Encrypt = None /\
+     dict_get (a_trailer a) K_Filter = None /\ dict_get (a_trailer a) K_Index = None) /\
+    dict_get (a_trailer a) K_DecodeParms = None /\ dict_get (a_trailer a) RefWriter.K_Size = None /\
+    (LoadsObjStmFile.gxpos st a (LoadsObjStmWhole.contsof st a) <= u32_max /\ LoadsObjStmFile.sizeG st a x <= u32_max /\
+     25 < LoadsObjStmFile.gxpos st a (LoadsObjStmWhole.contsof st a)) /\
+    N.of_nat (LoadsObjStmFile.gw0 st a x (LoadsObjStmWhole.contsof st a) + LoadsObjStmFile.gw1 st a x (LoadsObjStmWhole.contsof st a) +
+              LoadsObjStmFile.gw2 st a x (LoadsObjStmWhole.contsof st a)) <= Png.USIZE_MAX /\
+    LoadsFullProofs.sx_window st (LoadsObjStmFile.gxpos st a (LoadsObjStmWhole.contsof st a))
   end.
-Definition adoc_wf (a : adoc) : Prop :=
-  NoDup (map (fun io => fst (fst io)) (a_objs a)) /\
-  Forall (fun io => 1 <= fst (fst io) /\ fst (fst io) < u32_max /\ snd (fst io) <= u16_max /\ top_wf a (snd io)) (a_objs a) /\
-  obj_wf (ODict (a_trailer a)) /\
-  Forall (fun k => dict_get (a_trailer a) k = None)
-         [bs "Size"; bs "Type"; bs "W"; bs "Index"; bs "Length"; bs "Filter"; bs "DecodeParms"; bs "Prev"; bs "XRefStm"; bs "Encrypt"] /\
-  forallb (fun b => negb (is_eol_byte b)) (a_version a) = true.
 
 (* the numbers of the objects the writer adds for its own purposes: object-stream containers, the xref stream *)
 Definition structural_nums (st : fstyle) : list N :=
   map os_id (s_ostms st) ++ match s_xref st with XStream x => [xs_id x] | XTable _ => [] end.
 
-Definition C02_full : Prop :=
+Theorem C02_full :
   forall (st : fstyle) (a : adoc) (file : bytes),
-    adoc_wf a -> Known_raw_eol st a = false -> Known_deep_parens a = false ->
-    ref_write st a = Some file ->
+    C02_domain st a -> ref_write st a = Some file ->
     exists d t,
-      load file = LOk d t /\
+      LoaderExt.load_ext LoadsFilterProofs.decompress_ref LoadsFilterProofs.can_ref file = LOk d t /\
       d_version d = a_version a /\
       (* exactly the objects the file defines, each with the value it defines *)
       (forall id, In (fst id) (structural_nums st) \/
@@ -1063,6 +1096,80 @@ Definition C02_full : Prop :=
                  | None, None => True
                  | _, _ => False
                  end).
+Proof. exact LoadsFullProofs.full. Qed.
+
+(* the same for Model/Loader.v's load (Reader::read without the three features), wherever that model answers *)
+Theorem C02_full_over_load :
+  forall (st : fstyle) (a : adoc) (file : bytes),
+    C02_domain st a -> ref_write st a = Some file -> load file <> LUnmodelled ->
+    exists d t,
+      load file = LOk d t /\ d_version d = a_version a /\
+      (forall id, In (fst id) (structural_nums st) \/
+                  match lookup (d_objects d) id, lookup (content a) id with
+                  | Some o, Some o' => same_value o' o
+                  | None, None => True
+                  | _, _ => False
+                  end) /\
+      (forall k, In k [bs "Type"; bs "W"; bs "Index"; bs "Length"; bs "Filter"; bs "DecodeParms"] \/
+                 match dict_get (d_trailer d) k, dict_get (a_trailer a ++ [(bs "Size", OInt (Z.of_N (1 + max_num
+                         (map (fun io => fst (fst io)) (a_objs a) ++ structural_nums st))))]) k with
+                 | Some o, Some o' => same_value o' o
+                 | None, None => True
+                 | _, _ => False
+                 end).
+Proof.
+  intros st a file Hd Hw Hl. destruct (C02_full st a file Hd Hw) as [d [t H]]. exists d, t.
+  rewrite <- (LoaderExtProofs.load_ext_agrees LoadsFilterProofs.decompress_ref LoadsFilterProofs.can_ref file Hl). exact H.
+Qed.
+
+(* what stays outside C02_full, by name:
+   (a) a PNG predictor on an OBJECT STREAM (Spec/RefWriter.v predict with natural width 0: the payload is padded with spaces
+       to whole rows).  The per-stream result without predictor is C02_objstm_new_filtered, the predictor on data made of
+       whole rows is C02_filter_chain_decodes; not composed: the padded payload (ObjectStream::new ignores the trailing
+       white-space) -- [no_pred] in cont_ok.
+   (b) files of SEVERAL SECTIONS (ref_write_multi: Prev chain, objects listed again, superseded definitions): the reader's
+       three passes are proved for ANY merged table (Proofs/LoadsLoopProofs.v: C02_merge_object_streams,
+       C02_zero_length_pass, read_entries_x_loop take the merged table as a parameter); missing: prev_loop_x over the
+       sections of write_parts (each section decodes by the single-section lemmas; the merge is C07's merge_chain_latest)
+       and the layout of write_parts (offsets per part).  Checked by correspondence and direct verdict (load-multi* cases).
+   (c) the class of C02-deep-parens is stated on the RAW parentheses of the spelling (raw_depth_ok), the check's class
+       Known_deep_parens on all parentheses of the string: a style that escapes closing parentheses while leaving more than
+       100 opening ones raw is in the theorem's class but not in the check's (not drawn by the generator). *)
+Definition C02_objstm_predictor_partial : Prop :=
+  forall (st : fstyle) (a : adoc) (file : bytes),
+    (exists s, In s (s_ostms st) /\ ~ LoadsFilterProofs.no_pred (os_filter s)) ->
+    ref_write st a = Some file ->
+    exists d t, LoaderExt.load_ext LoadsFilterProofs.decompress_ref LoadsFilterProofs.can_ref file = LOk d t /\
+                d_version d = a_version a.
+Definition C02_loads_multi_partial : Prop :=
+  forall (st : fstyle) (parts : list mpart) (a : adoc) (file : bytes),
+    ref_write_multi st parts a = Some file ->
+    exists d t, LoaderExt.load_ext LoadsFilterProofs.decompress_ref LoadsFilterProofs.can_ref file = LOk d t /\
+                d_version d = a_version a /\
+                (forall id o, lookup (content a) id = Some o -> exists o', lookup (d_objects d) id = Some o' /\ same_value o o').
+
+(* non-vacuity of C02_full: the object-stream example (stream format) and the Length-reference example (table format)
+   are in the domain *)
+Theorem C02_example_full :
+  C02_domain ex_fstyle_os ex_adoc_os /\ C02_domain ex_fstyle ex_adoc_rl.
+Proof.
+  split.
+  - destruct C02_example_loads_objstm as [_ [H1 [H2 [H3 [H4 [H5 _]]]]]].
+    unfold C02_domain. split; [constructor; [discriminate|constructor]|].
+    change (s_xref ex_fstyle_os) with (XStream ex_xs_os). cbv iota.
+    split; [exact H1|]. split; [exact H2|]. split; [vm_compute; discriminate|].
+    split; [split; [exact (proj1 H3)|split; [exact (proj2 H3)|repeat split; reflexivity]]|].
+    split; [reflexivity|]. split; [reflexivity|]. split; [exact H4|]. split; [vm_compute; discriminate|exact H5].
+  - destruct C02_example_loads_table_reflen as [_ [H1 _]].
+    unfold C02_domain. split; [constructor|].
+    change (s_xref ex_fstyle) with (XTable ex_tstyle). cbv iota.
+    assert (Hx : LoadsTableProofs.xpos ex_fstyle ex_adoc_rl = 136) by (vm_compute; reflexivity).
+    assert (Hs : LoadsTableProofs.size ex_adoc_rl = 8) by (vm_compute; reflexivity).
+    split; [exact H1|]. split; [vm_compute; discriminate|]. split.
+    + repeat split; try reflexivity; try (cbn; unfold u32_max, u16_max; lia); try (vm_compute; lia).
+      cbn. constructor; [intros [H|[]]; discriminate|]. constructor; [intros []|constructor].
+    + unfold LoadsFullProofs.sx_window. rewrite Hx, Hs. split; [unfold u32_max; repeat split; lia|]. vm_compute. lia.
+Qed.
 
 (* ---------- non-vacuity ---------- *)
 Definition ex_secs : xsections := [(0, [SFree 0 65535; SInUse 17 0]); (5, [SComp 3 1; SInUse 70000 2])].
@@ -1176,6 +1283,9 @@ Print Assumptions C02_merge_object_streams.
 Print Assumptions C02_zero_length_pass.
 Print Assumptions C02_example_loads_objstm.
 Print Assumptions C02_load_frame.
+Print Assumptions C02_full.
+Print Assumptions C02_full_over_load.
+Print Assumptions C02_example_full.
 Print Assumptions C02_example_loads_table.
 Print Assumptions C02_example_object.
 Print Assumptions C02_example_literal.
